@@ -107,13 +107,28 @@ pub fn run_decode(sim: &Sim, _idx: u64) {
     sim.nontrivial();
     sim.sample(|| format!("decode: enc={enc:?} response={response} limit={limit:?} wire_len={w} declared_only={declared_only} stall={stall} before={before:?} after={after:?} accept={accept}"));
     sim.ev(|| format!("config decode: enc={enc:?} response={response} limit={limit:?} wire_len={w} declared_only={declared_only} stall={stall} before={before:?} after={after:?} probe_at={probe_at} accept={accept}"));
-    let body = Segmented::new(SimBody::new(sim, "in", evs, sim.pick(&[0u64, 30]), sim.chance(1, 4)));
+    // the announced body length (content-length) is peer-supplied too: it must not make the
+    // decoder reserve memory either
+    let hint = match sim.weighted(&[3, 1, 1]) {
+        0 => crate::seams::SizeHint::Unknown,
+        1 => crate::seams::SizeHint::ExactTrue,
+        _ => crate::seams::SizeHint::Announced(sim.pick(&[1u64 << 30, 1 << 31])),
+    };
+    let body = Segmented::new(SimBody::new(sim, "in", evs, sim.pick(&[0u64, 30]), sim.chance(1, 4)).with_size_hint(hint));
+    crate::rawcodec::draw_styles(sim);
     let dec = RawCodec(RawCfg { dec_buffer, ..RawCfg::default() }).decoder();
     let tenc = enc.map(|e| e.tonic());
-    let mut s = if response { Streaming::new_response(dec, body, StatusCode::OK, tenc, limit) } else { Streaming::new_request(dec, body, tenc, limit) };
     crate::alloc::mark();
+    let mut s = if response { Streaming::new_response(dec, body, StatusCode::OK, tenc, limit) } else { Streaming::new_request(dec, body, tenc, limit) };
     let observed = drain_stream(sim, &mut s, &|m: &RawMsg| m.0.to_vec(), 2, 64);
     let max_alloc = crate::alloc::max_single_since_mark();
+    if let crate::seams::SizeHint::Announced(n) = hint {
+        sim.probe("body-length-announced-up-front");
+        // (a limit that itself admits such a message makes a reservation of that size legitimate)
+        if max_alloc >= (1 << 29) && (max_alloc as u128) > (lim as u128) + (1 << 20) {
+            sim.violation("C06/memory-reserved-from-announced-body-length", format!("the body announced {n} bytes up front (nothing of it is bounded by the decoding limit {lim}); a single allocation of {max_alloc} bytes was made"));
+        }
+    }
 
     for (class, detail) in check_terminal(&observed, "") {
         sim.violation(&format!("C06/{class}"), detail);
@@ -263,6 +278,7 @@ pub fn run_encode(sim: &Sim, _idx: u64) {
     } else {
         sim.probe("oversized-candidate-first");
     }
+    crate::rawcodec::draw_styles(sim);
     let encoder = RawCodec(RawCfg { enc_buffer, enc_yield, ..RawCfg::default() }).encoder();
     let obs = encode_body(sim, role, encoder, items, src_pending, enc.map(|e| e.tonic()), Some(limit), 2);
     judge_encode(sim, role, enc, &obs, &before, &ser, &after, verdict, Code::OutOfRange, limit);
@@ -401,6 +417,7 @@ pub fn run_plumbing(sim: &Sim, _idx: u64) {
     sim.nontrivial();
     sim.sample(|| format!("plumbing: {} server dec/enc {server_dec:?}/{server_enc:?} client dec/enc {client_dec:?}/{client_enc:?} req {:?} resp {:?}", SHAPES[shape], req_msgs.iter().map(|m| m.len()).collect::<Vec<_>>(), resp_msgs.iter().map(|m| m.len()).collect::<Vec<_>>()));
     sim.ev(|| format!("config plumbing: {} server dec/enc {server_dec:?}/{server_enc:?} client dec/enc {client_dec:?}/{client_enc:?} req {:?} resp {:?}", SHAPES[shape], req_msgs.iter().map(|m| m.len()).collect::<Vec<_>>(), resp_msgs.iter().map(|m| m.len()).collect::<Vec<_>>()));
+    crate::rawcodec::draw_styles(sim);
     crate::rawcodec::set_cfg(RawCfg { enc_yield: sim.pick(&[0usize, 64, 32768]), ..RawCfg::default() });
     let handler = Handler::new(sim);
     handler.add_script(1, plan.script.clone());
